@@ -294,6 +294,55 @@ static uint64_t moveonly_family (uint64_t seed, bool trace)
 }
 #endif
 
+// F7: element type with nothrow moves but a throwing ADL swap: swap's exception specification (for std::allocator it
+// does not depend on is_always_equal) and the behaviour of a failing element-wise swap must not depend on the standard
+struct SwapT
+{
+  int v;
+  static int fuse;
+  SwapT (int x = 0) : v (x) { }
+  SwapT (const SwapT& o) : v (o.v) { }
+  SwapT (SwapT&& o) noexcept : v (o.v) { o.v = -1; }
+  SwapT& operator= (const SwapT& o) { v = o.v; return *this; }
+  SwapT& operator= (SwapT&& o) noexcept { v = o.v; o.v = -1; return *this; }
+  friend void swap (SwapT& a, SwapT& b)
+  {
+    if (fuse > 0 && --fuse == 0) throw 42;
+    int t = a.v; a.v = b.v; b.v = t;
+  }
+};
+int SwapT::fuse = 0;
+inline int val (const SwapT& t) { return t.v; }
+
+static uint64_t swapthrow_family (uint64_t seed, bool trace)
+{
+  Rng rng (seed);
+  Digest d; d.trace = trace;
+  typedef gch::small_vector<SwapT, 4> V;
+  typedef gch::small_vector<SwapT, 0> V0;
+  V a, b; V0 c, e;
+  d.mark ("noexcept");
+  d.add (noexcept (a.swap (b)) ? 1 : 0);
+  d.add (noexcept (c.swap (e)) ? 1 : 0);
+  for (int round = 0; round < 8; ++round)
+  {
+    a.clear (); b.clear ();
+    const unsigned na = static_cast<unsigned> (rng.below (5)), nb = static_cast<unsigned> (rng.below (5));
+    for (unsigned i = 0; i < na; ++i) a.emplace_back (static_cast<int> (10 + i));
+    for (unsigned i = 0; i < nb; ++i) b.emplace_back (static_cast<int> (50 + i));
+    if (round & 1) b.reserve (9);        // one side on the heap: buffers are exchanged, elements are not swapped
+    SwapT::fuse = static_cast<int> (rng.below (4));   // 0 = never throws
+    int out = 0;
+    try { if (round & 2) { using std::swap; swap (a, b); } else a.swap (b); }
+    catch (int) { out = 1; }
+    SwapT::fuse = 0;
+    d.mark ("swap"); d.add (out);
+    d.mark ("a"); observe (d, a);
+    d.mark ("b"); observe (d, b);
+  }
+  return d.h;
+}
+
 int main (int argc, char **argv)
 {
   setvbuf (stdout, 0, _IOLBF, 0);
@@ -384,6 +433,12 @@ int main (int argc, char **argv)
     h = converting (hs + 9, tr);
     if (tr) std::printf ("\n");
     std::printf ("{\"type\":\"digest\",\"id\":\"%s\",\"family\":\"converting\",\"h\":\"%016llx\"}\n", id, static_cast<unsigned long long> (h));
+    std::snprintf (id, sizeof id, "%d.s", i);
+    tr = trace && ! std::strcmp (trace, id);
+    if (tr) std::printf ("TRACE %s", id);
+    h = swapthrow_family (hs + 13, tr);
+    if (tr) std::printf ("\n");
+    std::printf ("{\"type\":\"digest\",\"id\":\"%s\",\"family\":\"throwing-swap/std\",\"h\":\"%016llx\"}\n", id, static_cast<unsigned long long> (h));
 #ifndef XSTD_NO_F6
     std::snprintf (id, sizeof id, "%d.m", i);
     tr = trace && ! std::strcmp (trace, id);
